@@ -275,13 +275,13 @@ func regressions() []regress {
 			"json", `{"m": [1]}`, "accept"},
 		{"D9cMapOfPtrToSlice", "D9c", gen.S(gen.F("m", gen.Map(gen.Ptr(gen.Slice(I))))),
 			"json", `{"m": {"k": [1]}}`, "accept"},
-		{"D12HeaderNegatedDepValidRejected", "", gen.S(gen.FK("header", "x-a", I, "optional"), gen.FK("header", "x-b", I, "optional=!x-a")),
+		{"N2HeaderNegatedDepValidRejected", "", gen.S(gen.FK("header", "x-a", I, "optional"), gen.FK("header", "x-b", I, "optional=!x-a")),
 			"header", `{"x-a": "1"}`, "accept"},
-		{"D12HeaderNegatedDepOther", "", gen.S(gen.FK("header", "x-a", I, "optional"), gen.FK("header", "x-b", I, "optional=!x-a")),
+		{"N2HeaderNegatedDepOther", "", gen.S(gen.FK("header", "x-a", I, "optional"), gen.FK("header", "x-b", I, "optional=!x-a")),
 			"header", `{"x-b": "2"}`, "accept"},
-		{"D11NaNPassesRangeForm", "", gen.S(gen.FK("form", "a", F64, "range=[1:5]")),
+		{"N1NaNPassesRangeForm", "", gen.S(gen.FK("form", "a", F64, "range=[1:5]")),
 			"form", `{"a": "NaN"}`, "reject"},
-		{"D11NaNPassesRangeJsonString", "", gen.S(gen.F("a", F64, "string", "range=[1:5]")),
+		{"N1NaNPassesRangeJsonString", "", gen.S(gen.F("a", F64, "string", "range=[1:5]")),
 			"json", `{"a": "nan"}`, "reject"},
 	}
 }
